@@ -373,14 +373,12 @@ void AbstractDiscreteDistribution::discretizeEqualProportions()
       bounds_[i - 1] = intMinMax_->getLowerBound() + static_cast<double>(i) * ec;
     }
 
-    values[0] = (intMinMax_->getLowerBound() + bounds_[0]) / 2;
-
-    for (i = 1; i < numberOfCategories_ - 1; i++)
+    for (i = 0; i < numberOfCategories_; i++)
     {
-      values[i] = (bounds_[i - 1] + bounds_[i]) / 2;
+      double firstBound = (i == 0) ? intMinMax_->getLowerBound() : bounds_[i - 1];
+      double secondBound = (i == numberOfCategories_ - 1) ? intMinMax_->getUpperBound() : bounds_[i];
+      values[i] = (firstBound + secondBound) / 2;
     }
-
-    values[numberOfCategories_ - 1] = (intMinMax_->getUpperBound() + bounds_[numberOfCategories_ - 1]) / 2;
   }
 
   // adjustments near the boundaries of the domain, according to the precision chosen
